@@ -89,6 +89,12 @@ func (e *Engine) verifyFunction(name string, spec *FuncSpec) (fc *FnCtx, err err
 	nReq := len(fc.assertions)
 	out, res := fc.execBody(fr, st)
 	fr.entry = entry
+	// a before-clause that matched no call site checks nothing: that is a binding failure, not a pass
+	for i, b := range spec.Befores {
+		if !fc.beforeHits[i] {
+			panic(bindError{msg: fmt.Sprintf("before-clause %q names callee %q, which the function never calls", clauseLabel(b.Clause, i), b.Callee)})
+		}
+	}
 	// escaped panics
 	if len(fr.panics) > 0 && !spec.MayPanic {
 		var pcs []Term
@@ -209,7 +215,12 @@ func ghostKey(g GhostBind) string {
 func (fc *FnCtx) havocNamed(st *State, name string, t types.Type) Val {
 	t = unalias(t)
 	if _, ok := t.Underlying().(*types.Signature); ok {
-		return &Poison{"func-typed parameter"}
+		// a function value is modelled by its identity alone (0 = nil): it can be stored, loaded and
+		// compared with nil or with another value of the same origin; calling it goes through a field /
+		// variable contract or havoc, exactly as for an unknown function value
+		v := fc.decls.constant(sanitize(name), SInt)
+		fc.define(tGe(v, intLit(0)))
+		return v
 	}
 	v := fc.decls.constant(sanitize(name), sortOf(t))
 	fc.inputSyms = append(fc.inputSyms, v.S)
